@@ -317,7 +317,7 @@ class WrapperMixin(object):
         subline = spaces * self.indent
         nparts = 0
 
-        if line[0] == "\r":
+        if line[:1] == "\r":
             indent = 2
             line = line[1:]
 
@@ -410,10 +410,10 @@ class WrapperMixin(object):
                             self.write_continue(fp, subline[1:], spaces)
                     else:
                         # [-]*text[+]
-                        while subline[0] == "-":
+                        while subline[:1] == "-":
                             self.indent -= 1
                             subline = subline[1:]
-                        if subline[-1] == "+":
+                        if subline[-1:] == "+":
                             self.write_continue(fp, subline[:-1], spaces)
                             self.indent += 1
                         else:
